@@ -10,13 +10,29 @@ fn main() {
     println!("cargo:rustc-check-cfg=cfg(daniel729_chess_verif)");
     let out = PathBuf::from(env::var("OUT_DIR").unwrap()).join("mount.rs");
     let mut s = String::new();
-    for (m, f) in [
-        ("chess", "chess/mod.rs"),
-        ("constants", "constants.rs"),
-        ("search", "search.rs"),
-        ("uci", "uci.rs"),
-        ("autoplay", "autoplay.rs"),
-    ] {
+    // every `mod x;` of the engine's main.rs except the ones that only make sense in its own binary; a module an edit
+    // adds is mounted as well
+    let main_rs = fs::read_to_string(format!("{}/src/main.rs", repo)).unwrap_or_default();
+    let mut mods: Vec<String> = vec![];
+    for line in main_rs.lines() {
+        let l = line.trim();
+        let l = l.strip_prefix("pub ").unwrap_or(l);
+        if let Some(rest) = l.strip_prefix("mod ") {
+            if let Some(name) = rest.strip_suffix(';') {
+                let name = name.trim().to_string();
+                if !["verif_shim", "benchmark", "performance_test"].contains(&name.as_str()) && !mods.contains(&name) {
+                    mods.push(name);
+                }
+            }
+        }
+    }
+    for m in ["chess", "constants", "search", "uci", "autoplay"] {
+        if !mods.iter().any(|x| x == m) {
+            mods.push(m.to_string());
+        }
+    }
+    for m in mods {
+        let f = if PathBuf::from(format!("{}/src/{}.rs", repo, m)).exists() { format!("{}.rs", m) } else { format!("{}/mod.rs", m) };
         s.push_str(&format!("#[path = \"{}/src/{}\"]\npub mod {};\n", repo, f, m));
     }
     fs::write(out, s).unwrap();
